@@ -13,7 +13,9 @@ report must not depend on which other report was displayed before it (each repor
 is displayed exactly once), so the displayed multiset does not depend on the order of files / definitions.
 
 Hash-map orders inside a pass: the whole side-effect pass (C09's harness) is run three times per program with
-every HashMap / HashSet iterated in insertion, reverse and rotated order; the multiset of claims must be equal.
+every HashMap / HashSet iterated in insertion, reverse, rotated and pseudo-randomly permuted order; the multiset of claims
+must be equal.  All twelve intra-procedural passes of get_analysis_passes (with their real report construction) run likewise on every
+straight-line template of <= 3 (4) statements over an input, two intermediate and an output signal.
 """
 from . import common, C03
 
@@ -31,6 +33,8 @@ def main(tier, replay=None):
         # hash-map iteration orders inside a pass: the side-effect pass under three iteration orders (templates; thorough: functions too)
         from . import C09
         ts += [{'kind': 'orders', 't': dict(t, orders=True), 'prop': 'C17'} for t in C09.tasks(tier) if tier == 'thorough' or t['dt'] == 'Template']
+        # every intra-procedural pass (real report construction) on straight-line templates over input / intermediate / output signals
+        ts += [{'kind': 'orders', 't': t, 'prop': 'C17'} for t in C09.tasks_sig(tier)]
         return ts
     c3.tasks = tasks17
     orig_is = c3.is_c02_violation
